@@ -487,6 +487,20 @@ def rule_f(ctx, ix):
         inside_body = any(any(a is y for y in ast.walk(ast.Module(body=g.body, type_ignores=[]))) for a in adds)
         if (early and all(a.lineno > g.end_lineno for a in adds)) or inside_else or (negated and inside_body):
             ok = True
+    # "has a member for that dataset" means that very dataset (the sibling _remove_data drops members by identity): the comparison takes
+    # the dataset itself as an operand, not one of its attributes (labels are not unique)
+    cmps = [x for x in ast.walk(f.node) if isinstance(x, ast.Compare) and '.data' in unparse(x)
+            and p in [y.id for y in ast.walk(x) if isinstance(y, ast.Name)]]
+    if cmps:
+        bare = [x for x in cmps if any(isinstance(o, ast.Name) and o.id == p for o in [x.left] + list(x.comparators))]
+        byattr = [x for x in cmps if x not in bare and any(isinstance(o, ast.Attribute) and isinstance(o.value, ast.Name) and o.value.id == p
+                                                            for o in [x.left] + list(x.comparators))]
+        ctx.idiom(R, f.construct + ' comparison', 'the membership guard compares the dataset itself', accepted=bool(bare) and not byattr, absent=bool(byattr),
+                  detail_absent='SubsetGroup._add_data decides "the group already has a member for this dataset" with `%s`, a comparison of an '
+                                'attribute of the dataset: two datasets that agree in it (labels are not unique) count as one, so the second '
+                                'of them gets no subset for the group when it is added (or re-added by undo / redo)'
+                                % (unparse(byattr[0]) if byattr else ''),
+                  shape='; '.join(unparse(x) for x in cmps), where=where(f, cmps[0]))
     ctx.idiom(R, f.construct, 'a member is added only when the group has none for that dataset', accepted=ok, absent=not guards,
               detail_absent='SubsetGroup._add_data adds a grouped subset for the dataset unconditionally: when the dataset-added message '
                             'is delivered after the group was registered with that dataset already in the collection (both inside one '
